@@ -11,6 +11,7 @@ from ..symx import Tx, E, I, S, is_zero, fmt_cond
 from ..canon import structure_continues
 from ..astutil import walk_local, stores, parent, ancestors
 from ..cfg import paths, whole_collection
+from ..canon import _dc
 
 DOM = "shangrla/formats/Dominion.py"
 
@@ -275,7 +276,7 @@ def run(chk):
 def norm_src(node):
     import copy
 
-    n = copy.deepcopy(node)
+    n = _dc(node)
     for x in ast.walk(n):
         if hasattr(x, "ctx"):
             x.ctx = ast.Load()
